@@ -432,8 +432,42 @@ def c10_r4(ctx):
                         if norm.call_name(c) == "add_block":
                             sites.append(sorted(fa.at(n) or []))
             ctx.ob(f, len(sites) == 1, "inline path folds the (unwritten) buffer into the term info exactly once", detail=str(sites))
+            # postings are inlined only when NO block of this term was written before (the written blocks would be orphaned)
+            for n in fa.g.nodes:
+                for frag in cfgmod.node_exprs(n):
+                    for c in norm.calls_in(frag):
+                        if norm.call_name(c) == "set_inlined":
+                            facts = fa.at(n) or frozenset()
+                            ok_ = ("F", "self.written()") in facts or ("T", "(0 == self._blockcount)") in facts or ("F", "self._blockcount") in facts
+                            ctx.ob(f, ok_, "postings are inlined only if nothing of this term was written to the posting file yet",
+                                   detail="facts: %s" % sorted(facts), loc=ctx.nodeloc(f, c))
     nb = pw.methods["_new_block"]
     ap = pw.methods["add_posting"]
+    # the "block is full" flush comes before anything of the new posting is recorded in the block buffer or its statistics
+    g_ap = cfgmod.cfg_of(ap)
+
+    def is_flush(n_):
+        return any(norm.call_name(c_) in ("_write_block", "_new_block") for frag in cfgmod.node_exprs(n_) for c_ in norm.calls_in(frag))
+
+    def is_update(n_):
+        a_ = n_.ast
+        if n_.kind != "stmt":
+            return False
+        if isinstance(a_, (ast.Assign, ast.AugAssign)):
+            tg_ = a_.targets[0] if isinstance(a_, ast.Assign) else a_.target
+            return isinstance(tg_, ast.Attribute) and norm.canon(tg_.value) == "self"
+        return any(norm.call_name(c_) in ("append", "extend") and norm.canon(norm.receiver(c_) or ast.Name(id="")).startswith("self._")
+                   for frag in cfgmod.node_exprs(n_) for c_ in norm.calls_in(frag))
+    flushes = [n_ for n_ in g_ap.nodes if is_flush(n_)]
+    late = None
+    for u in [n_ for n_ in g_ap.nodes if is_update(n_)]:
+        pth = cfgmod.find_path(g_ap, u, is_flush)
+        if pth is not None:
+            late = [u] + pth
+    ctx.ob(ap, len(flushes) == 1 and late is None,
+           "add_posting flushes a full block before it records anything of the new posting (ids, weights, values, block statistics)",
+           detail="a statistic of the new posting is folded into the block that is then written and reset: the posting's own block "
+                  "understates max weight / lengths" if late else "", path=cfgmod.path_text(late) if late else None)
     upd = set()
     for st in ast.walk(ap.node):
         if isinstance(st, (ast.Assign, ast.AugAssign)):
